@@ -420,6 +420,8 @@ def case_reject_degree(log, mode, n):
                     ok_k = True
                 except ValueError:
                     ok_k = False
+                except (ZeroDivisionError, IndexError, TypeError):
+                    ok_k = True  # not rejected by a ValueError: the construction went on and broke down later
                 v = prove_formula(z3.BoolVal(ok_k == (1 <= k <= n - 1)), "%d nodes, degree %d (passes the sanity checks): constructor %s, expected %s"
                                   % (n, k, "succeeds" if ok_k else "raises ValueError", "success" if 1 <= k <= n - 1 else "ValueError"))
                 decide(log, v, key="InterpolatorDispatcher.__init__:degree-check", replay=(MOD, "replay_reject_degree", {"mode": mode, "n": n}),
